@@ -61,7 +61,10 @@ class AnySpecifier(BaseSpecifier):
         return ""
 
     def __hash__(self) -> int:
-        return hash(str(self))
+        # AnySpecifier() == RangeSpecifier(), so both must hash alike
+        from dep_logic.specifiers.range import RangeSpecifier
+
+        return hash(RangeSpecifier())
 
     def __eq__(self, other: object) -> bool:
         if not isinstance(other, BaseSpecifier):
